@@ -4,7 +4,7 @@ from __future__ import annotations
 import ast
 
 from .. import AnalysisError
-from ..rules import (check_attr_existence, handler_summaries, is_raising,
+from ..rules import (guarded_reads, check_attr_existence, handler_summaries, is_raising,
                      mapper_node_pairs, where)
 from ..summary import NODE, contains, summarize
 
@@ -53,6 +53,8 @@ def run(ctx):
         pairs += 1
         if n.name in AFFINE_LEAVES or n.child_fields:
             check_attr_existence(ctx, "X1", model, cc, n, mem, dedupe)
+        if n.child_fields and mem.node.name == "map_algebraic_leaf":
+            _composite_leaf(ctx, model, n, mem)
     ctx.floor("CoefficientCollector handled pairs", pairs, 8)
     ctx.floor("CoefficientCollector refused node classes", raising, 15)
 
@@ -270,6 +272,50 @@ def run(ctx):
 
     _solver(ctx, model)
     _exact_divisions(ctx, model)
+
+
+def _composite_leaf(ctx, model, n, mem):
+    """A node with children (a subscript, a call) that ends up in the leaf
+    handler is sorted into "target" or "constant term" there.  As a constant
+    term it may not mention a target -- `a[x]` with target x is not affine in
+    x -- so the handler has to look at the node's children (directly or by
+    handing the node to an analysis), or refuse the node.  Reading an
+    attribute the class does not have is such a refusal (it is the recorded
+    finding X1/...); sorting the node by a default value obtained without
+    looking at it is not."""
+    fn = model.inlined(mem.node)
+    node_name = fn.args.args[1].arg if len(fn.args.args) > 1 else None
+    if node_name is None:
+        raise AnalysisError("map_algebraic_leaf: no node parameter")
+    g = guarded_reads(fn)
+    refuses = consults = False
+    for a in ast.walk(fn):
+        if isinstance(a, ast.Attribute) and isinstance(a.value, ast.Name) and \
+                a.value.id == node_name and isinstance(a.ctx, ast.Load):
+            if a.attr in n.child_fields:
+                consults = True
+            elif a.attr not in n.attrs and id(a) not in g:
+                refuses = True
+        if isinstance(a, ast.Call):
+            fname = ast.unparse(a.func)
+            if fname in ("getattr", "hasattr", "isinstance", "type", "id",
+                         "repr", "str"):
+                continue
+            if any(isinstance(x, ast.Name) and x.id == node_name
+                   for x in a.args):
+                consults = True
+    if is_raising(mem):
+        refuses = True
+    ok = refuses or consults
+    ctx.ob(f"P/CoefficientCollector/map_algebraic_leaf/{n.name}/"
+           "constant-term-free-of-targets", ok, where(mem),
+           f"a {n.name} is " + ("refused" if refuses else "looked into") +
+           " before it is sorted" if ok else
+           f"with target names given, a {n.name} reaches map_algebraic_leaf and "
+           f"is filed as a constant term without its {'/'.join(n.child_fields)} "
+           "being looked at: CoefficientCollector(['x'])(a[x] + 2*x) returns "
+           "{x: 2, 1: a[x]} -- a 'constant' that mentions the target, for an "
+           "input that is not affine in x")
 
 
 def _exact_divisions(ctx, model):
